@@ -8,6 +8,8 @@ let () =
   | "asmoracle" -> Asmoracle.main ()
   | "climodel" -> Clidrv.main ()
   | "asmselftest" -> Asmdrv.selftest ()
+  | "tbrun" -> Tbdrv.main ()
+  | "c06mon" -> Tbdrv.mon_main ()
   | "rtlproc" -> Rtldrv.proc_main ()
   | "rtlhex" -> Rtldrv.hex_main ()
   | "c03step" -> Rtldrv.c03step_main ()
